@@ -14,6 +14,7 @@ hypothesis `handshake` of `C21_partial`.
 -/
 import FhVerif.Proofs.TlsRoute
 import FhVerif.Gen.Facts
+import FhVerif.Gen.PoolShape
 
 namespace Fh.Props.C21
 open Fh Fh.Model.TlsRoute Fh.Proofs.TlsRoute
@@ -102,6 +103,15 @@ def checkBeforeWrite : Bool :=
 theorem scheme_check_guards_every_transmission :
     Gen.roundTrip_callers = ["doNonNilReqResp"] ∧ checkBeforeWrite = true := by decide
 
+/-- REGENERATED fact (skeleton emitted by extract/pool_c18.go): CloseIdleConnections takes a COPY of the idle list
+    under the lock, truncates the list, unlocks and closes the copies.  The invariant above (`poolOk`: whatever sits in
+    a HostClient's idle list was dialled by that HostClient, with its TLS setting) relies on an idle entry never
+    being shared with anything else; walking the list's own backing array outside the lock would close - and hand to
+    the global clientConn pool - a connection another goroutine has just put back as idle. -/
+theorem closeIdle_hands_out_a_copy :
+    Gen.poolShape_CloseIdleConnections =
+      ["lock", "scratch = copy of c.conns", "c.conns = c.conns[:0]", "unlock", "range scratch => CloseConn"] := by decide
+
 /-- Client.Do itself never reports a scheme mismatch: it always picks a HostClient of the right kind -/
 theorem client_never_mismatches (dialOk : Bytes → Bool) (s : St) (hinv : Inv s) (scheme host : Bytes) (keep cfgOk : Bool) :
     (clientDo dialOk s scheme host keep cfgOk).2 ≠ .mismatch :=
@@ -111,6 +121,7 @@ theorem client_never_mismatches (dialOk : Bytes → Bool) (s : St) (hinv : Inv s
 
 def schemeOf : Op → Option Bytes
   | .newHC _ _ _ => none
+  | .closeIdle _ => none
   | .client scheme _ _ _ => some scheme
   | .host _ scheme _ => some scheme
 
@@ -127,6 +138,7 @@ def WriteOK (e : Op × Option Res × St) : Prop :=
       ∃ (cn : Conn) (hc : HC), e.2.2.conns[id]? = some cn ∧ e.2.2.hcs[i]? = some hc ∧ hc.isTLS = isHTTPS scheme ∧
         cn.tls = isHTTPS scheme ∧ cn.addr = hc.addr
     | .newHC _ _ _ => False
+    | .closeIdle _ => False
 
 theorem step_inv (dialOk : Bytes → Bool) (s : St) (hinv : Inv s) (op : Op) :
     Inv (step dialOk s op).1 ∧ Ext s (step dialOk s op).1 ∧ WriteOK (op, (step dialOk s op).2, (step dialOk s op).1) := by
@@ -135,6 +147,13 @@ theorem step_inv (dialOk : Bytes → Bool) (s : St) (hinv : Inv s) (op : Op) :
     obtain ⟨h1, h2⟩ := inv_addHC hinv ⟨addr, isTLS, [], cfgOk⟩ rfl
     refine ⟨h1, h2, ?_⟩
     intro id hw; simp [Wrote, step] at hw
+  | closeIdle i =>
+    simp only [step]
+    cases hi : s.hcs[i]? with
+    | none => exact ⟨hinv, Ext.refl s, fun id hw => by simp [Wrote] at hw⟩
+    | some hc =>
+      have := inv_setPool hinv hi [] s.conns (fun _ _ h => h) (fun _ _ h => Or.inl h) (fun x hx => by cases hx)
+      exact ⟨this.1, this.2, fun id hw => by simp [Wrote] at hw⟩
   | client scheme host keep cfgOk =>
     obtain ⟨h1, h2, h3, _⟩ := clientDo_spec dialOk hinv scheme host keep cfgOk
     refine ⟨h1, h2, ?_⟩
@@ -195,6 +214,7 @@ theorem no_conn_serves_both_schemes (dialOk : Bytes → Bool) (ops : List Op)
     obtain ⟨op, r, st⟩ := e
     cases op with
     | newHC a t c => simp [schemeOf] at hs
+    | closeIdle j => simp [schemeOf] at hs
     | client scheme host keep c =>
       simp only [schemeOf] at hs; injection hs with hs; subst hs
       obtain ⟨cn, e', t, _⟩ := this
@@ -223,6 +243,7 @@ def C21_full (secure : Conn → Prop) : Prop :=
       ∃ (cn : Conn) (hc : HC), e.2.2.conns[id]? = some cn ∧ e.2.2.hcs[i]? = some hc ∧ hc.isTLS = isHTTPS scheme ∧
         cn.addr = hc.addr ∧ (isHTTPS scheme = true → secure cn) ∧ (isHTTPS scheme = false → cn.tls = false)
     | .newHC _ _ _ => False
+    | .closeIdle _ => False
 
 /-- C21 up to the handshake: if every connection that dialAddr wrapped in TLS is secure, the property holds -/
 theorem C21_partial (secure : Conn → Prop) (handshake : ∀ cn : Conn, cn.tls = true → secure cn) : C21_full secure := by
@@ -232,6 +253,7 @@ theorem C21_partial (secure : Conn → Prop) (handshake : ∀ cn : Conn, cn.tls 
   obtain ⟨op, r, st⟩ := e
   cases op with
   | newHC a t c => exact this
+  | closeIdle j => exact this
   | client scheme host keep c =>
     obtain ⟨cn, e', t, a⟩ := this
     refine ⟨cn, e', ?_, ?_⟩
@@ -271,6 +293,9 @@ example : (retryOn allOk (step allOk {} (.newHC (ofString "a.test:80") false)).1
       [(strHTTP, true, true), (strHTTPS, true, false)]).2 = [.wrote 0, .mismatch] := by decide +kernel
 example : (retryOn allOk (step allOk {} (.newHC (ofString "a.test:80") false)).1 0
       [(strHTTP, true, true), (strHTTP, true, false)]).2 = [.wrote 0, .wrote 1] := by decide +kernel
+/-- CloseIdleConnections empties the pool: the next request dials a fresh connection of the right kind -/
+example : ((run allOk {} [.client strHTTPS aTest true, .client strHTTPS aTest true, .closeIdle 0, .client strHTTPS aTest true]).map (·.2.1)) =
+    [some (.wrote 0), some (.wrote 0), none, some (.wrote 1)] := by decide +kernel
 example : addMissingPort (ofString "[::1]") true = ofString "[::1]:443" := by decide +kernel
 example : addMissingPort (ofString "[::1]:8080") true = ofString "[::1]:8080" := by decide +kernel
 
